@@ -61,7 +61,7 @@ pub fn helix_points(p: [f64; 6], ts: &[f64]) -> Vec<SpacePoint> {
     ts.iter().map(|t| sp_xyz(p[3] * (t + p[4]).cos() + p[0], p[3] * (t + p[4]).sin() + p[1], p[5] / (2.0 * PI) * t + p[2])).collect()
 }
 
-pub const FAMILIES: [&str; 14] = [
+pub const FAMILIES: [&str; 16] = [
     "helix with special pitch",
     "collinear ray through the origin",
     "collinear on the x axis",
@@ -76,6 +76,8 @@ pub const FAMILIES: [&str; 14] = [
     "random cloud",
     "physical track",
     "physical track with duplicates",
+    "vertical line perturbed",
+    "inner clump plus one far hit",
 ];
 pub const PITCHES: [f64; 27] = [0.0, 5e-324, -5e-324, 1e-310, -1e-310, 1e-300, 1e-17, -1e-17, 1e-16, 2.2e-16, -2.2e-16, 1e-15, 1e-12, 1e-9, 1e-6, 1e-4, 1e-3, 1e-2, 0.1, -0.1, 0.5, 1.0, -1.0, 3.0, 10.0, 100.0, -100.0];
 
@@ -178,6 +180,27 @@ pub fn family(rng: &mut Rng, fam: usize, n: usize) -> Vec<SpacePoint> {
             }
             t.truncate(n.max(13));
             t
+        }
+        14 => {
+            // hits stacked in z whose x-y scatter is 1e-16..1e-6 m: the fitted helix is extremely thin
+            let (r, phi) = (rng.range(0.06, 0.24), rng.range(-PI, PI));
+            let eps = 10f64.powf(rng.range(-16.0, -6.0));
+            let dz = *rng.pick(&[0.004, 0.02, 0.001]);
+            let zs = rng.range(-1.0, 0.0);
+            (0..n).map(|i| sp_xyz(r * phi.cos() + eps * rng.range(-1.0, 1.0), r * phi.sin() + eps * rng.range(-1.0, 1.0), (zs + dz * i as f64).clamp(-1.3, 1.3))).collect()
+        }
+        15 => {
+            // most hits (numerically) at one radius, one slightly further, one far out; same phi or nearly
+            let phi = rng.range(-PI, PI);
+            let r0 = rng.range(0.06, 0.2);
+            let d1 = r0 * 10f64.powf(rng.range(-6.0, -3.0));
+            let r2 = r0 + rng.range(0.01, 0.04);
+            let dphi = if rng.bool() { 0.0 } else { 10f64.powf(rng.range(-17.0, -9.0)) };
+            let slope = rng.range(-1.0, 1.0);
+            let mut v: Vec<SpacePoint> = (0..n.saturating_sub(2)).map(|_| sp(r0, phi, z0 + slope * r0)).collect();
+            v.push(sp(r0 + d1, phi + dphi, z0 + slope * (r0 + d1)));
+            v.push(sp(r2, phi - dphi, (z0 + slope * r2).clamp(-1.3, 1.3)));
+            v
         }
         _ => {
             let mut t = random_track(rng, z0.clamp(-0.8, 0.8));
